@@ -108,6 +108,10 @@ func (y *yieldAst) CallFor(cond, post, body ast.Expr) *ast.CallExpr {
 	if isNil(post) {
 		return y.SeqCall(cstWhile, cond, body)
 	}
+	if isNil(cond) {
+		// for init; ; post { ... }: seq.For takes a nil condition for "always true"
+		cond = X.Ident("nil")
+	}
 	return y.SeqCall(cstFor, cond, post, body)
 }
 
